@@ -92,6 +92,14 @@ pub enum Op {
     /// drop all guards opened by FillScopes
     Unfill,
     BusyWait { micros: u64 },
+    /// `Span::root(name, SpanContext::random())` (also exercises `SpanContext::default()`)
+    RootRandom { slot: u32, name: String },
+    /// `TraceId::random()`, `SpanId::random()`, `SpanContext::random()`, `SpanContext::default()`
+    RandomIds,
+    /// run `inner` from a thread-local destructor when this actor's thread exits. `early`: the
+    /// destructor is registered now (place the op before any tracing so that it runs after
+    /// fastrace's and rand's thread-locals are gone); else after `warm`-ing the tracing state.
+    AtThreadExit { inner: Vec<Op> },
     /// make sure this thread's command queue exists and is registered (a thread that traced before)
     Warm,
 }
@@ -222,6 +230,9 @@ impl Op {
             Op::Unfill => "unfill".into(),
             Op::BusyWait { micros } => format!("busy({micros}us)"),
             Op::Warm => "warm".into(),
+            Op::RootRandom { slot, name } => format!("root#{slot}:{name}(random)"),
+            Op::RandomIds => "random-ids".into(),
+            Op::AtThreadExit { inner } => format!("at-thread-exit[[{}]]", inner.iter().map(|o| o.short()).collect::<Vec<_>>().join(" ")),
         }
     }
 }
